@@ -343,6 +343,13 @@ func newC16Scope(n *dNode) *c16Scope {
 	for i := len(flat) - 1; i >= 0 && flat[i].part.K == "cmd"; i-- {
 		sc.trailing[flat[i]] = true
 	}
+	// Adjacent commands (an optional part between them is absent) are joined into one mid-rule
+	// nonterminal: only the last command of a run puts a symbol on the stack.
+	for i := 0; i+1 < len(flat); i++ {
+		if flat[i].part.K == "cmd" && flat[i+1].part.K == "cmd" {
+			sc.trailing[flat[i]] = true
+		}
+	}
 	return sc
 }
 
